@@ -758,6 +758,9 @@ func (e *Env) trCall(n *ast.CallExpr) TV {
 	case "box":
 		v := arg(0)
 		return TV{e.w.box(v.T, v.Ty), tyAny}
+	case "refOf":
+		// the reference held by an interface value whose dynamic type is a pointer
+		return TV{A("pref", arg(0).T), types.NewPointer(types.NewStruct(nil, nil))}
 	case "boxval":
 		// boxval(T, i): the value of type T stored at reference i (pointer to a non-struct T)
 		t := e.typeArg(n.Args[0])
